@@ -30,10 +30,11 @@ func typeShort(t types.Type) string {
 }
 
 // eventName gives the canonical, type-resolved name of what a call site calls:
-//   interface invoke:  "types.WritableFile.Sync" (static receiver type + method)
-//   static function:   "os.Rename", "os.File.Sync", "bbolt.Tx.Commit", "atomic.StoreUint64"
-//   builtin:           "builtin.close"
-//   dynamic:           ""
+//
+//	interface invoke:  "types.WritableFile.Sync" (static receiver type + method)
+//	static function:   "os.Rename", "os.File.Sync", "bbolt.Tx.Commit", "atomic.StoreUint64"
+//	builtin:           "builtin.close"
+//	dynamic:           ""
 func eventName(ci ssa.CallInstruction) string {
 	cc := ci.Common()
 	if cc.IsInvoke() {
